@@ -1484,6 +1484,41 @@ impl<'a> Gen<'a> {
             fnames.push(f);
             self.st.hit("plain-fn");
         }
+        if self.rng.chance(1, 2) {
+            // typed data flowing into generic calls through (a) an annotated let whose initializer is the
+            // (dynamically typed) result of a generic call, (b) a lambda capturing a variable initialised
+            // from a call: the types recorded by type inference for the let / the capture decide which
+            // instance monomorphisation creates
+            self.st.hit("typed-flow-into-generic");
+            let k = self.fresh;
+            self.fresh += 1;
+            let (ety, lit) = *self.rng.pick(&[("string", "\"ada\", \"bob\""), ("float", "1.5, 2.5"), ("bool", "true, false")]);
+            let cont = if self.rng.chance(1, 2) { "Vec" } else { "Array" };
+            let plain = self.rng.chance(1, 3);
+            s.push_str(&format!("fn names{}() -> {}<{}> {{\n  return {}[{}]\n}}\n", k, cont, ety, cont, lit));
+            s.push_str(&format!("fn first{}<T>(xs: {}<T>) -> T {{\n  return xs[0]\n}}\n", k, cont));
+            s.push_str(&format!("fn keep{}<T>(x: T) -> T {{\n  return x\n}}\n", k));
+            let mut b = format!("fn build{}() -> {} {{\n  let all = names{}()\n", k, ety, k);
+            if self.rng.chance(2, 3) {
+                self.st.hit("annotated-let-over-generic-result");
+                b.push_str(&format!("  let kept: {}<{}> = keep{}(all)\n", cont, ety, k));
+            } else {
+                b.push_str(&format!("  let kept: {}<{}> = names{}()\n", cont, ety, k));
+            }
+            if plain {
+                let one_lit = match ety { "string" => "\"zed\"", "float" => "3.5", _ => "true" };
+                b.push_str(&format!("  let one: {} = keep{}({})\n  let again = keep{}(one)\n", ety, k, one_lit, k));
+            }
+            if self.rng.chance(2, 3) {
+                self.st.hit("lambda-capturing-call-initialised-variable");
+                b.push_str(&format!("  let pick = fn() -> {} {{\n    return first{}(all)\n  }}\n  print(pick())\n", ety, k));
+            }
+            if self.rng.chance(1, 3) {
+                b.push_str(&format!("  fn inner{}() -> {} {{\n    return first{}(all)\n  }}\n", k, ety, k));
+            }
+            b.push_str(&format!("  return first{}(kept)\n}}\n", k));
+            s.push_str(&b);
+        }
         if self.rng.chance(1, 3) {
             // a function taking a function value (its type is inferred, not annotated)
             self.st.hit("higher-order-fn");
